@@ -45,6 +45,24 @@ def kinds():
     K["gnest2"] = lambda i, k0: four(i, k0, '<g id="e{i}" transform="scale(2) translate({0}, {1})"><rect xy="{2} 1" wh="{3} 2"/></g>') + ([f"e{i}"], None)
     K["gtrans1"] = lambda i, k0: (f'<g id="e{i}" transform="translate([[{k0}]])"><rect xy="[[{k0 + 1}]] 2" wh="[[{k0 + 2}]] 4"/></g>', [(10, *POS), (1, *POS), (3, *SZ)], [f"e{i}"], None)
     K["gneg"] = lambda i, k0: four(i, k0, '<g id="e{i}" transform="scale(-1 2)"><rect xy="{0} {1}" wh="{2} {3}"/></g>') + ([f"e{i}"], None)
+    # group transforms: every combination of unit / non-unit / negative scale factors, alone and with a translation
+    def gsc(sx, sy, extra=""):
+        tr = f"scale({sx} {sy})" if sy is not None else f"scale({sx})"
+        return lambda i, k0: four(i, k0, '<g id="e{i}" transform="' + extra + tr + '"><rect xy="{0} {1}" wh="{2} {3}"/></g>') + ([f"e{i}"], None)
+    for nm, sx, sy in (("gs-1-3", "1", "3"), ("gs-3-1", "3", "1"), ("gs-1-1", "1", "1"), ("gs-2-2", "2", "2"), ("gs-h", "0.5", None), ("gs-n1", "-1", None), ("gs-1-n2", "1", "-2"), ("gs-n2-1", "-2", "1")):
+        K[nm] = gsc(sx, sy)
+    K["gs-t-1-3"] = gsc("1", "3", "translate(3 4) ")
+    # paths: several sub-paths, closepath followed by relative commands (the current point returns to the sub-path start)
+    K["path-zrel"] = lambda i, k0: (f'<path id="e{i}" d="M [[{k0}]] [[{k0 + 1}]] l [[{k0 + 2}]] 0 l 0 [[{k0 + 3}]] z m 5 5 l 10 0"/>', [(3, *POS), (14, *POS), (23, *SZ), (4 + 9 * i, *SZ)], [f"e{i}"], None)
+    K["path-zrel2"] = lambda i, k0: (f'<path id="e{i}" d="M [[{k0}]] [[{k0 + 1}]] L [[{k0 + 2}]] [[{k0 + 3}]] Z l 7 9 M 1 2 h 3 z v 4"/>', [(3, *POS), (14, *POS), (23, *POS), (4 + 9 * i, *POS)], [f"e{i}"], None)
+    K["path-multi"] = lambda i, k0: (f'<path id="e{i}" d="M [[{k0}]] [[{k0 + 1}]] H [[{k0 + 2}]] V [[{k0 + 3}]] m 1 1 h 2 v 2"/>', [(3, *POS), (14, *POS), (23, *POS), (4 + 9 * i, *POS)], [f"e{i}"], None)
+    # clip paths: on a group, and defined after the element that uses them
+    K["clip-g"] = lambda i, k0: (f'<defs><clipPath id="c{i}"><rect xy="[[{k0}]] 0" wh="[[{k0 + 1}]] 10"/></clipPath></defs><g id="e{i}" clip-path="url(#c{i})"><rect xy="[[{k0 + 2}]] 5" wh="[[{k0 + 3}]] 20"/></g>',
+                                 [(0, *POS), (10, *SZ), (5, *POS), (20, *SZ)], [f"e{i}"], None)
+    K["clip-after"] = lambda i, k0: (f'<rect id="e{i}" xy="[[{k0 + 2}]] 5" wh="[[{k0 + 3}]] 20" clip-path="url(#c{i})"/><defs><clipPath id="c{i}"><rect xy="[[{k0}]] 0" wh="[[{k0 + 1}]] 10"/></clipPath></defs>',
+                                     [(0, *POS), (10, *SZ), (5, *POS), (20, *SZ)], [f"e{i}"], None)
+    K["clip-g-after"] = lambda i, k0: (f'<g id="e{i}" clip-path="url(#c{i})"><rect xy="[[{k0 + 2}]] 5" wh="[[{k0 + 3}]] 20"/></g><defs><clipPath id="c{i}"><rect xy="[[{k0}]] 0" wh="[[{k0 + 1}]] 10"/></clipPath></defs>',
+                                       [(0, *POS), (10, *SZ), (5, *POS), (20, *SZ)], [f"e{i}"], None)
     K["use"] = lambda i, k0: (f'<rect id="t{i}" xy="[[{k0}]] 2" wh="[[{k0 + 1}]] 4"/><use id="e{i}" href="#t{i}" x="[[{k0 + 2}]]" y="[[{k0 + 3}]]"/>',
                               [(1, *POS), (3, *SZ), (40, *POS), (-30, *POS)], [f"t{i}", f"e{i}"], None)
     K["use-x"] = lambda i, k0: (f'<rect id="t{i}" xy="[[{k0}]] 2" wh="[[{k0 + 1}]] 4"/><use id="e{i}" href="#t{i}" x="[[{k0 + 2}]]"/>',
@@ -64,7 +82,7 @@ def kinds():
     return K
 
 
-MAIN = ["rect", "circle", "ellipse", "line", "polyline", "polygon", "path", "text", "box", "gtrans", "gscale", "gscale2", "gnest", "gnest2", "gtrans1", "gneg", "use", "use-x", "use-y", "use-0", "usesym", "clip", "shapetext"]
+MAIN = ["rect", "circle", "ellipse", "line", "polyline", "polygon", "path", "text", "box", "gtrans", "gscale", "gscale2", "gnest", "gnest2", "gtrans1", "gneg", "gs-1-3", "gs-3-1", "gs-1-1", "gs-2-2", "gs-h", "gs-n1", "gs-1-n2", "gs-n2-1", "gs-t-1-3", "path-zrel", "path-zrel2", "path-multi", "use", "use-x", "use-y", "use-0", "usesym", "clip", "clip-g", "clip-after", "clip-g-after", "shapetext"]
 NOTHING = ["point", "defs", "specs", "symbol"]
 ROOTS = ["", 'width="200"', 'height="10cm"', 'viewBox="0 0 100 50"', 'width="200" height="10cm"', 'width="30mm" viewBox="1 2 3 4"', 'height="77" viewBox="1 2 3 4"', 'width="1in" height="2in" viewBox="0 0 1 1"']
 
